@@ -14,8 +14,12 @@ SelfTest ==
   /\ ~Ok([users |-> <<[running |-> 0, ready |-> 1], [running |-> 0, ready |-> 9]>>, free |-> 6], [o |-> "alloc", alloc |-> <<1, 2>>])
   /\ Ok([users |-> <<[running |-> 0, ready |-> 5]>>, free |-> -3], [o |-> "alloc", alloc |-> <<0>>])
   /\ ~Ok([users |-> <<[running |-> 0, ready |-> 5]>>, free |-> 0], [o |-> "alloc", alloc |-> <<3>>])
-FreeSet == atoi(IOEnv.FS_FREELO)..atoi(IOEnv.FS_FREEHI)
+\* the harness lists the universes, one JSON record [maxusers, maxval, unit, freelo, freehi, off] per line
+Params == ndJsonDeserialize(IOEnv.FS_PARAMS)
+U(p) == Universe(p.maxusers, p.maxval, p.unit, p.freelo..p.freehi, p.off)
+\* concatenation, not UNION: merging large sets of nested records is slow in TLC; the harness drops repeated lines
+RECURSIVE Cat(_)
+Cat(i) == IF i = 0 THEN <<>> ELSE Cat(i - 1) \o SetToSeq(U(Params[i]))
 ASSUME /\ SelfTest
-       /\ ndJsonSerialize(IOEnv.FS_INPUTS,
-            SetToSeq(Universe(atoi(IOEnv.FS_MAXUSERS), atoi(IOEnv.FS_MAXVAL), atoi(IOEnv.FS_UNIT), FreeSet, atoi(IOEnv.FS_OFF))))
+       /\ ndJsonSerialize(IOEnv.FS_INPUTS, Cat(Len(Params)))
 =============================================================================
